@@ -30,7 +30,7 @@ def _derives_from_read(f, nid, depth=0):
     return None
 
 
-def run(prog, run):
+def run(prog, run, only_restart_rules=False):
     run.explanation = ('Dataflow in every slot connected to readyRead of the XMPP socket: the bytes of one read must not reach a stateless '
                        'byte-to-text decoder; they may only be appended to a member accumulator that is decoded up to a computed character boundary '
                        '(or pass through a stateful decoder member). Every stream restart clears all receive-state members. Necessary for '
@@ -163,6 +163,8 @@ def run(prog, run):
                                   'a new stream starts (%s) without clearing %s: leftovers of the previous stream are prepended to the new one'
                                   % (c['signal']['qname'].split('::')[-1], fld.split('::')[-1]))
 
+    if only_restart_rules:
+        return          # C10 shares R1/R2 (receive state is per connection)
     r3_chunk(prog, run, ready)
     r4_classes(prog, run, ready, accumulators)
     r5_order(prog, run)
